@@ -891,3 +891,60 @@ func tamperWidths(data []byte, rnd *vt.Rand) (out []byte, label string) {
 	}
 	return out, fmt.Sprintf("widths first=%d last=%d n=%d style=%d", first, last, n, style)
 }
+
+// ---------------------------------------------------------------------------
+// page content replaced by a deeply nested inline image header
+
+// deepContent replaces the stream a /Contents entry names by a Flate-
+// compressed inline image header with dictionaries nested in dictionaries.
+func deepContent(data []byte, rnd *vt.Rand) (out []byte, label string) {
+	defer func() {
+		if r := recover(); r != nil {
+			out, label = nil, ""
+		}
+	}()
+	ts := syntax.Tokens(data)
+	objs := locate(ts)
+	var nums []int64
+	for i := 0; i+3 < len(ts); i++ {
+		if ts[i].Kind == syntax.TokName && string(ts[i].Bytes) == "Contents" && ts[i+1].Kind == syntax.TokInt && ts[i+2].Kind == syntax.TokInt && kw(ts[i+3], "R") {
+			nums = append(nums, ts[i+1].Int)
+		}
+	}
+	if len(nums) == 0 {
+		return nil, ""
+	}
+	num := nums[rnd.Intn(len(nums))]
+	for _, o := range objs {
+		if o.num != num || o.tok+3 >= len(ts) || ts[o.tok+3].Kind != syntax.TokDictOpen {
+			continue
+		}
+		afterEnd := -1
+		for j := o.tok + 3; j < len(ts); j++ {
+			if ts[j].Kind == syntax.TokStreamData {
+				afterEnd = ts[j].End
+				if i := bytes.Index(data[afterEnd:], []byte("endstream")); i >= 0 {
+					afterEnd += i + len("endstream")
+				}
+				break
+			}
+			if kw(ts[j], "endobj") {
+				break
+			}
+		}
+		if afterEnd < 0 {
+			return nil, ""
+		}
+		n := []int{11, 12, 300, 5000, 100000, 5000000}[rnd.Intn(6)]
+		mixed := rnd.Intn(3) == 0
+		comp := deflateFast(deepInlineImage(n, mixed))
+		var b bytes.Buffer
+		b.Write(data[:ts[o.tok+2].End])
+		fmt.Fprintf(&b, "\n<< /Filter /FlateDecode /Length %d >>\nstream\n", len(comp))
+		b.Write(comp)
+		b.WriteString("\nendstream")
+		b.Write(data[afterEnd:])
+		return b.Bytes(), fmt.Sprintf("deepcontent n=%d mixed=%v", n, mixed)
+	}
+	return nil, ""
+}
